@@ -78,4 +78,8 @@ pub enum ParserErrorKind {
     /// An expression nests more deeply than the parser supports.
     #[error("expression is nested more than {limit} levels deep")]
     ExpressionTooDeeplyNested { limit: usize },
+
+    /// Definitions with instruction blocks are nested more deeply than the parser supports.
+    #[error("instruction blocks are nested more than {limit} levels deep")]
+    BlockTooDeeplyNested { limit: usize },
 }
